@@ -269,7 +269,7 @@ inline Result exec_c06(const Plan& plan)
             Res rs;
             Outcome o = call_driver(*fs.drv, rq, rs);
             sim::stats().count(std::string("fault.applied.torn_encode.") + sim::out_name(o.kind));
-            if(o.kind != Out::DONE) continue; // the producer itself failed: not this property's subject (C10 runs the same producers)
+            if(o.kind != Out::DONE || rs.unsupported) continue; // the producer itself failed: not this property's subject (C10 runs the same producers)
             sim::stats().count(rs.valid ? "probe.c06.torn.complete_encodes_over_stale_content" : "probe.c06.torn.partial_encodes");
             bytes.assign(p, p + size);
             n = bytes.size();
